@@ -13,6 +13,8 @@ import (
 	"math/rand"
 	"time"
 
+	"github.com/yandex/pandora/core"
+
 	"verif/harness/vkit"
 )
 
@@ -185,6 +187,63 @@ func runCase(res *vkit.Result, c Case) {
 	}
 }
 
+// cancelledEnding: "the run ends the same way" also when it is stopped before the provider has
+// delivered anything: the context is cancelled before Run begins, with and without preloading
+// (and with chosencases naming a tag that only appears late in the file).
+func cancelledEnding(res *vkit.Result, c Case) {
+	data := c.File.Render()
+	end := func(preload bool) string {
+		path := vkit.WriteMem(data)
+		defer vkit.RemoveMem(path)
+		conf := map[string]any{"type": typeName[c.File.Format], "file": path, "limit": c.Limit, "passes": c.Passes}
+		if preload {
+			conf["preload"] = true
+		}
+		if len(c.Chosen) > 0 {
+			var cc []any
+			for _, s := range c.Chosen {
+				cc = append(cc, s)
+			}
+			conf["chosencases"] = cc
+		}
+		p, err := vkit.NewProvider(conf)
+		if err != nil {
+			return "rejected:" + err.Error()
+		}
+		ctx, cancel := context.WithCancel(context.Background())
+		cancel()
+		go func() {
+			for {
+				a, ok := p.Acquire()
+				if !ok {
+					return
+				}
+				p.Release(a)
+			}
+		}()
+		done := make(chan error, 1)
+		go func() { done <- p.Run(ctx, core.ProviderDeps{Log: vkit.NopLog(), PoolID: "verif"}) }()
+		select {
+		case err := <-done:
+			switch {
+			case err == nil:
+				return "nil"
+			case errors.Is(err, context.Canceled):
+				return "cancelled"
+			}
+			return "error:" + err.Error()
+		case <-time.After(10 * time.Second):
+			return "hang"
+		}
+	}
+	off, on := end(false), end(true)
+	if endClass(off) != endClass(on) || off == "hang" {
+		c.Text = short(string(data))
+		res.Violate("C14/diff/cancelled-before-run/ending", fmt.Sprintf("cancelled before Run began, the run ends differently: preload off → %s, preload on → %s", short(off), short(on)), c)
+	}
+	res.Count("cancelled_endings_compared", 1)
+}
+
 func cls(n int) string {
 	if n == 0 {
 		return "=0"
@@ -244,8 +303,11 @@ func main() {
 		cases = append(cases, gen(rng))
 	}
 	hangs := 0
-	for _, c := range cases {
+	for i, c := range cases {
 		before := res.Counter("hangs")
+		if i%20 == 0 {
+			cancelledEnding(res, c)
+		}
 		runCase(res, c)
 		_ = before
 		if hangs > 5 {
